@@ -926,6 +926,404 @@ Lemma instance_both_directions :
   holds (settle 20 (run net0 [AReconnect; ADeliver SB; ADeliver SA; ASend SA; ASend SB; ASend SA; ABreak])) = true.
 Proof. vm_compute. reflexivity. Qed.
 
+(* ------------------------------------------------------------------ the mirror image: B sends, A misses *)
+(* The step lemmas below are the ones above with the two ends exchanged (cfgA <-> cfgB, role 1 <-> 2);
+   the proof scripts are identical. *)
+
+Definition rows_app_m (s i : Z) (k : nat) : list (Z * msg) := gen (fun s i => (s, wapp cfgB s i)) s i k.
+Definition rows_pd_m (s i : Z) (k : nat) : list (Z * msg) := gen (fun s i => (s, wpd cfgB s i)) s i k.
+Definition frames_app_m (s i : Z) (k : nat) : list msg := gen (fun s i => wapp cfgB s i) s i k.
+Definition frames_pd_m (s i : Z) (k : nat) : list msg := gen (fun s i => wpd cfgB s i) s i k.
+
+Lemma send_app_step_m : forall ni no lt si rows ins id,
+  keys_lt no rows -> 0 < no <= I64MAX ->
+  send_msg cfgB (app_msg id) (W 17 2 ni no 0 lt true (no - 1) si rows ins)
+  = mkR (inl tt) (W 17 2 ni (no + 1) 0 lt true no si (rows ++ [(no, wapp cfgB no id)]) ins)
+        [Wire (wapp cfgB no id)].
+Proof.
+  intros * K B. unfold W. pose proof (has_key_lt _ _ K) as HK.
+  timeout 60 (ev_with ltac:(rewrite ?HK)). fin.
+Qed.
+
+Lemma recv_app_active_m : forall ni no lt so si rows ins id,
+  all_lt ni ins -> 0 < ni < I64MAX -> si = ni - 1 ->
+  process_message cfgA (recv_of cfgA (wapp cfgB ni id)) NOW0 (W 17 1 ni no 0 lt true so si rows ins)
+  = mkR (inl tt) (W 17 1 (ni + 1) no 0 NOW0 true so ni rows (ins ++ [ni]))
+        [App (recv_of cfgA (wapp cfgB ni id))].
+Proof.
+  intros * K B ->. unfold W, process_message, validate_integrity.
+  pose proof (existsb_lt _ _ K) as HK. timeout 60 (ev_with ltac:(rewrite ?HK)). fin.
+Qed.
+
+Lemma recv_pd_awaiting_m : forall ni no mr lt so si rows ins id,
+  all_lt ni ins -> 0 < ni < mr -> mr <= I64MAX -> si = ni - 1 ->
+  process_message cfgA (recv_of cfgA (wpd cfgB ni id)) NOW0 (W 12 1 ni no mr lt true so si rows ins)
+  = mkR (inl tt) (W 12 1 (ni + 1) no mr NOW0 true so ni rows (ins ++ [ni]))
+        [App (recv_of cfgA (wpd cfgB ni id))].
+Proof.
+  intros * K1 B1 B2 ->. unfold W, process_message, validate_integrity.
+  pose proof (existsb_lt _ _ K1) as HK1. timeout 60 (ev_with ltac:(rewrite ?HK1)). fin.
+Qed.
+
+Lemma recv_gf_awaiting_m : forall ni no so si rows ins,
+  all_lt ni ins -> keys_lt no rows -> 0 < ni < I64MAX -> 0 < no <= I64MAX -> so = no - 1 -> si = ni - 1 ->
+  process_message cfgA (recv_of cfgA (wgf cfgB ni (ni + 1))) NOW0 (W 12 1 ni no ni NOW0 true so si rows ins)
+  = mkR (inl tt) (W 17 1 (ni + 1) no 0 NOW0 true so ni rows (ins ++ [ni])) [State 17].
+Proof.
+  intros * K1 K2 B1 B2 -> ->. unfold W, process_message, validate_integrity.
+  pose proof (existsb_lt _ _ K1) as HK1.
+  timeout 100 (ev_with ltac:(rewrite ?(filter_ins_lt _ _ K1) by lia; rewrite ?(filter_rows_lt _ _ K2) by lia; rewrite ?HK1)).
+  fin.
+Qed.
+
+Lemma replay_apps_m : forall k s i b gfe ni lt si pre ins rest,
+  keys_lt s pre -> gfe <= s -> 0 < s -> s + Z.of_nat k <= I64MAX ->
+  replay_loop cfgB (rows_app_m s i k ++ rest) s gfe (W 10 2 ni b 0 lt true (s - 1) si pre ins)
+  = prepend (map Wire (frames_pd_m s i k))
+      (replay_loop cfgB rest (s + Z.of_nat k) gfe
+         (W 10 2 ni b 0 lt true (s + Z.of_nat k - 1) si (pre ++ rows_pd_m s i k) ins)).
+Proof.
+  induction k as [|k IH]; intros * K G B1 B2.
+  - cbn. rewrite prepend_nil, app_nil_r. replace (s + 0) with s by lia. reflexivity.
+  - unfold rows_app_m, rows_pd_m, frames_pd_m. cbn [gen app map].
+    fold (rows_app_m (s + 1) (i + 1) k). fold (rows_pd_m (s + 1) (i + 1) k). fold (frames_pd_m (s + 1) (i + 1) k).
+    remember (rows_app_m (s + 1) (i + 1) k ++ rest) as tl eqn:Etl.
+    pose proof (has_key_lt _ _ K) as HK. unfold W.
+    timeout 100 (ev_with ltac:(rewrite ?HK)).
+    subst tl.
+    assert (P1 : keys_lt (s + 1) (pre ++ [(s, wpd cfgB s i)])).
+    { apply keys_lt_app; [eapply keys_lt_weaken; [exact K|lia]|]. repeat constructor. cbn. lia. }
+    specialize (IH (s + 1) (i + 1) b gfe ni lt si _ ins rest P1 ltac:(lia) ltac:(lia) ltac:(lia)).
+    replace (s + 1 - 1) with s in IH by lia.
+    replace (s + 1 + Z.of_nat k) with (s + Z.of_nat (S k)) in IH by lia.
+    rewrite <- app_assoc in IH. cbn [app] in IH.
+    lazymatch type of IH with
+    | _ = ?rhs =>
+        match goal with
+        | |- context [replay_loop ?c ?l ?a ?g ?w] =>
+            replace (replay_loop c l a g w) with rhs by (symmetry; exact IH)
+        end
+    end.
+    destruct (replay_loop cfgB rest (s + Z.of_nat (S k)) gfe _) as [v w e]. reflexivity.
+Qed.
+
+Lemma recv_resend_request_m : forall ni lt si pre ins b i k L,
+  all_lt ni ins -> keys_lt b pre -> 0 < ni < I64MAX -> 0 < b -> L = b + Z.of_nat k -> L < I64MAX ->
+  process_message cfgB (recv_of cfgB (wrr cfgA ni b)) NOW0
+    (W 17 2 ni (L + 1) 0 lt true L si (pre ++ rows_app_m b i k ++ [(L, wlogon cfgB L)]) ins)
+  = mkR (inl tt)
+        (W 17 2 (ni + 1) (L + 1) 0 NOW0 true L ni (pre ++ rows_pd_m b i k ++ [(L, wgf cfgB L (L + 1))]) (ins ++ [ni]))
+        ([State 10] ++ map Wire (frames_pd_m b i k) ++ [Wire (wgf cfgB L (L + 1)); State 17]).
+Proof.
+  intros * K1 K2 B1 B2 EL B3. unfold W, process_message, validate_integrity.
+  pose proof (existsb_lt _ _ K1) as HK1.
+  timeout 100 (ev_with ltac:(rewrite ?HK1)).
+  match goal with |- context [sort_rows (filter ?f ?l)] =>
+    replace (sort_rows (filter f l)) with (rows_app_m b i k ++ [(L, wlogon cfgB L)])
+      by (symmetry; apply recover_range; [exact K2 | lia | lia]) end.
+  match goal with |- context [filter ?f (pre ++ ?post)] =>
+    replace (filter f (pre ++ post)) with pre end.
+  2:{ symmetry. apply truncate_at. exact K2. apply Forall_app. split. apply ge_gen. lia. repeat constructor. cbn. lia. }
+  rewrite (filter_ins_lt _ _ K1) by lia.
+  match goal with |- context [replay_loop ?c ?l ?a ?g ?w] =>
+    replace (replay_loop c l a g w)
+      with (prepend (map Wire (frames_pd_m b i k))
+              (replay_loop cfgB [(L, wlogon cfgB L)] (b + Z.of_nat k) b
+                 (W 10 2 ni b 0 lt true (b + Z.of_nat k - 1) (ni - 1) (pre ++ rows_pd_m b i k) ins)))
+      by (symmetry; apply replay_apps_m; [exact K2 | lia | lia | unfold I64MAX; lia]) end.
+  unfold W.
+  timeout 100 (ev_with ltac:(rewrite ?HK1)).
+  match goal with |- context [has_key ?x (pre ++ ?l)] =>
+    replace (has_key x (pre ++ l)) with false
+      by (symmetry; apply has_key_lt; apply keys_lt_app; [eapply keys_lt_weaken; [exact K2|lia]|apply keys_lt_gen; lia]) end.
+  timeout 100 (ev_with ltac:(rewrite ?(filter_ins_lt _ _ K1) by lia; rewrite ?HK1)).
+  match goal with |- context [filter ?f ((pre ++ ?l) ++ ?m)] =>
+    replace (filter f ((pre ++ l) ++ m)) with ((pre ++ l) ++ m)
+      by (symmetry; apply keep_all; repeat apply keys_lt_app;
+          [eapply keys_lt_weaken; [exact K2|lia] | apply keys_lt_gen; lia | repeat constructor; cbn; lia]) end.
+  subst L. fin.
+Qed.
+
+(* --- A, waiting for the Logon reply: it is numbered above the expected number: one ResendRequest, wait *)
+Lemma recv_logon_reply_high : forall ni no so si rows ins s,
+  keys_lt no rows -> 0 < ni < s -> s <= I64MAX -> 0 < no < I64MAX -> so = no - 1 ->
+  process_message cfgA (recv_of cfgA (wlogon cfgB s)) NOW0 (W 7 1 ni no 0 0 true so si rows ins)
+  = mkR (inl tt) (W 12 1 ni (no + 1) s 0 true no si (rows ++ [(no, wrr cfgA no ni)]) ins)
+        [State 11; OnLogon false; Wire (wrr cfgA no ni); State 12].
+Proof.
+  intros * K2 B1 B2 B3 ->. unfold W, process_message, validate_integrity.
+  pose proof (has_key_lt _ _ K2) as HK2.
+  timeout 60 (ev_with ltac:(rewrite ?HK2)). fin.
+Qed.
+
+(* n application sends of B while ACTIVE *)
+Lemma sends_B : forall k ni no lt so si rows ins wav abv bav gav gbv sav sbv id,
+  keys_lt no rows -> 0 < no -> no + Z.of_nat k <= I64MAX -> so = no - 1 ->
+  run (mkNet wav (W 17 2 ni no 0 lt true so si rows ins) abv bav gav gbv sav sbv id) (repeat (ASend SB) k)
+  = mkNet wav (W 17 2 ni (no + Z.of_nat k) 0 lt true (so + Z.of_nat k) si (rows ++ rows_app_m no id k) ins)
+          abv (bav ++ frames_app_m no id k) gav gbv sav (sbv ++ texts id k) (id + Z.of_nat k).
+Proof.
+  induction k as [|k IH]; intros * K B1 B2 E.
+  - cbn. rewrite !app_nil_r. replace (no + 0) with no by lia. replace (so + 0) with so by lia.
+    replace (id + 0) with id by lia. reflexivity.
+  - subst so. cbn [repeat run fold_left].
+    match goal with |- fold_left ?f ?l ?x = _ => change (fold_left f l x) with (run x l) end.
+    unfold step, do_send. nopen.
+    rewrite (send_app_step_m ni no lt si rows ins id K) by (unfold I64MAX in *; lia).
+    nopen. rewrite app_nil_r.
+    rewrite IH; [ | | lia | unfold I64MAX in *; lia | lia ].
+    + unfold rows_app_m, frames_app_m, texts. cbn [gen]. rewrite <- !app_assoc. cbn [app].
+      repeat (first [ reflexivity | lia | f_equal ]).
+    + apply keys_lt_app; [eapply keys_lt_weaken; [exact K|lia]|]. repeat constructor. cbn. lia.
+Qed.
+
+(* k deliveries of consecutive application messages to A while ACTIVE (nothing is in flight towards B) *)
+Lemma delivers_A : forall k s i noa soa si rowsa insa wbv rest gav gbv sav sbv id,
+  all_lt s insa -> 0 < s -> s + Z.of_nat k < I64MAX -> si = s - 1 ->
+  run (mkNet (W 17 1 s noa 0 NOW0 true soa si rowsa insa) wbv [] (frames_app_m s i k ++ rest) gav gbv sav sbv id)
+      (repeat (ADeliver SA) k)
+  = mkNet (W 17 1 (s + Z.of_nat k) noa 0 NOW0 true soa (si + Z.of_nat k) rowsa (insa ++ nums s k)) wbv
+          [] rest (gav ++ map Some (texts i k)) gbv sav sbv id.
+Proof.
+  induction k as [|k IH]; intros * K B1 B2 E.
+  - cbn. rewrite !app_nil_r. replace (s + 0) with s by lia. replace (si + 0) with si by lia. reflexivity.
+  - subst si. unfold frames_app_m. cbn [gen app repeat run fold_left]. fold (frames_app_m (s + 1) (i + 1) k).
+    match goal with |- fold_left ?f ?l ?x = _ => change (fold_left f l x) with (run x l) end.
+    unfold step, do_deliver. nopen.
+    rewrite (recv_app_active_m s noa NOW0 soa (s - 1) rowsa insa i K) by (unfold I64MAX in *; lia).
+    nopen. rewrite text_of_app, ?app_nil_r.
+    rewrite IH; [ | | lia | unfold I64MAX in *; lia | lia ].
+    + unfold nums, texts. cbn [gen map]. rewrite <- !app_assoc. cbn [app].
+      repeat (first [ reflexivity | lia | f_equal ]).
+    + apply Forall_app. split; [eapply all_lt_weaken; [exact K|lia]|]. repeat constructor. lia.
+Qed.
+
+(* the retransmitted application messages reach A while it waits for the resend *)
+Lemma drain_pd_m : forall k f s i mr lt noa soa si rowsa insa wbv rest gav gbv sav sbv id,
+  all_lt s insa -> 0 < s -> s + Z.of_nat (S k) <= mr -> mr <= I64MAX -> si = s - 1 ->
+  drain (S k + f) (mkNet (W 12 1 s noa mr lt true soa si rowsa insa) wbv [] (frames_pd_m s i (S k) ++ rest) gav gbv sav sbv id)
+  = drain f (mkNet (W 12 1 (s + Z.of_nat (S k)) noa mr NOW0 true soa (si + Z.of_nat (S k)) rowsa (insa ++ nums s (S k))) wbv
+                   [] rest (gav ++ map Some (texts i (S k))) gbv sav sbv id).
+Proof.
+  induction k as [|k IH]; intros * K B1 B2 B3 E; subst si.
+  - cbn [Nat.add]. rewrite drain_S. unfold frames_pd_m. cbn [gen app].
+    nopen. unfold do_deliver. nopen.
+    rewrite (recv_pd_awaiting_m s noa mr lt soa (s - 1) rowsa insa i K) by (unfold I64MAX in *; lia).
+    nopen. rewrite text_of_pd, ?app_nil_r.
+    unfold nums, texts. cbn [gen map].
+    repeat (first [ reflexivity | lia | f_equal ]).
+  - change (S (S k) + f)%nat with (S (S k + f)). rewrite drain_S. unfold frames_pd_m. rewrite (gen_S _ _ (S k)). cbn [app].
+    fold (frames_pd_m (s + 1) (i + 1) (S k)).
+    nopen. unfold do_deliver. nopen.
+    rewrite (recv_pd_awaiting_m s noa mr lt soa (s - 1) rowsa insa i K) by (unfold I64MAX in *; lia).
+    nopen. rewrite text_of_pd, ?app_nil_r.
+    change (S (k + f)) with (S k + f)%nat. rewrite IH; [ | | lia | lia | lia | lia ].
+    + unfold nums, texts. cbn [gen map]. rewrite <- !app_assoc. cbn [app].
+      repeat (first [ reflexivity | lia | f_equal ]).
+    + apply Forall_app. split; [eapply all_lt_weaken; [exact K|lia]|]. repeat constructor. lia.
+Qed.
+
+(* first Logon exchange; B sends d + k application messages; the first d reach A; the link breaks *)
+Definition sched_before_m (d k : nat) : list action :=
+  [AReconnect; ADeliver SB; ADeliver SA] ++ repeat (ASend SB) (d + k) ++ repeat (ADeliver SA) d.
+
+Definition net_before_m (d k : nat) : net :=
+  let n := Z.of_nat (d + k) in
+  mkNet (W 17 1 (2 + Z.of_nat d) 2 0 NOW0 true 1 (1 + Z.of_nat d) [LA1] ([1] ++ nums 2 d))
+        (W 17 2 2 (2 + n) 0 NOW0 true (1 + n) 1 ([LB1] ++ rows_app_m 2 1 (d + k)) [1])
+        [] (frames_app_m (2 + Z.of_nat d) (1 + Z.of_nat d) k) ([] ++ map Some (texts 1 d)) [] [] ([] ++ texts 1 (d + k)) (1 + n).
+
+Lemma at_before_m : forall d k, Z.of_nat (d + k) + 3 <= I64MAX -> run net0 (sched_before_m d k) = net_before_m d k.
+Proof.
+  intros d k B. unfold sched_before_m. rewrite run_app, first_logon. unfold net_up.
+  rewrite run_app.
+  rewrite (sends_B (d + k) 2 2 NOW0 1 1 [LB1] [1]); [ | repeat constructor; cbn; lia | lia | lia | lia ].
+  unfold frames_app_m at 1. rewrite gen_app. fold (frames_app_m 2 1 d).
+  cbn [app].
+  rewrite (delivers_A d 2 1 2 1 1 [LA1] [1]); [ | repeat constructor; lia | lia | unfold I64MAX in *; lia | lia ].
+  reflexivity.
+Qed.
+
+Definition net_broken_m (d k : nat) : net :=
+  let n := Z.of_nat (d + k) in
+  mkNet (W 3 1 (2 + Z.of_nat d) 2 0 0 false 1 (1 + Z.of_nat d) [LA1] ([1] ++ nums 2 d))
+        (W 3 2 2 (2 + n) 0 0 false (1 + n) 1 ([LB1] ++ rows_app_m 2 1 (d + k)) [1])
+        [] [] ([] ++ map Some (texts 1 d)) [] [] ([] ++ texts 1 (d + k)) (1 + n).
+
+Lemma at_break_m : forall d k, Z.of_nat (d + k) + 3 <= I64MAX ->
+  run net0 (sched_before_m d k ++ [ABreak]) = net_broken_m d k.
+Proof.
+  intros d k B. rewrite run_app, at_before_m by assumption. unfold net_before_m.
+  cbn [run fold_left]. unfold step, do_break. nopen.
+  rewrite !disconnect_active. nopen. rewrite ?app_nil_r. reflexivity.
+Qed.
+
+Definition net_reconnected_m (d k : nat) : net :=
+  let n := Z.of_nat (d + k) in
+  mkNet (W 7 1 (2 + Z.of_nat d) 3 0 0 true 2 (1 + Z.of_nat d) ([LA1] ++ [(2, wlogon cfgA 2)]) ([1] ++ nums 2 d))
+        (W 6 2 2 (2 + n) 0 0 true (1 + n) 1 ([LB1] ++ rows_app_m 2 1 (d + k)) [1])
+        [wlogon cfgA 2] [] ([] ++ map Some (texts 1 d)) [] [] ([] ++ texts 1 (d + k)) (1 + n).
+
+Lemma at_reconnect_m : forall d k, Z.of_nat (d + k) + 3 <= I64MAX ->
+  do_reconnect (net_broken_m d k) = net_reconnected_m d k.
+Proof.
+  intros d k B. unfold net_broken_m, do_reconnect. nopen.
+  change (set_wr true (set_st ST_NCE (W 3 1 (2 + Z.of_nat d) 2 0 0 false 1 (1 + Z.of_nat d) [LA1] (1 :: nums 2 d))))
+    with (W 6 1 (2 + Z.of_nat d) 2 0 0 true (2 - 1) (1 + Z.of_nat d) [LA1] (1 :: nums 2 d)).
+  rewrite send_logon_step; [ | repeat constructor; unfold LA1; cbn [fst]; lia | unfold I64MAX; lia ].
+  nopen. unfold net_reconnected_m. cbn [app].
+  change (set_wr true (set_st ST_NCE (W 3 2 2 (2 + Z.of_nat (d + k)) 0 0 false (1 + Z.of_nat (d + k)) 1 (LB1 :: rows_app_m 2 1 (d + k)) [1])))
+    with (W 6 2 2 (2 + Z.of_nat (d + k)) 0 0 true (1 + Z.of_nat (d + k)) 1 (LB1 :: rows_app_m 2 1 (d + k)) [1]).
+  rewrite ?app_nil_r. repeat (first [ reflexivity | lia | f_equal ]).
+Qed.
+
+Lemma settle_broken_m : forall d k fuel, Z.of_nat (d + k) + 3 <= I64MAX ->
+  settle fuel (net_broken_m d k) = drain fuel (net_reconnected_m d k).
+Proof.
+  intros d k fuel B. unfold settle.
+  rewrite (drain_quiet fuel (net_broken_m d k)) by reflexivity.
+  replace (link_down (net_broken_m d k)) with true by reflexivity.
+  rewrite at_reconnect_m by assumption. reflexivity.
+Qed.
+
+(* --- nothing was in flight *)
+Definition net_final0_m (d : nat) : net :=
+  let n := Z.of_nat d in
+  mkNet (W 17 1 (3 + n) 3 0 NOW0 true 2 (2 + n) [LA1; (2, wlogon cfgA 2)] (([1] ++ nums 2 d) ++ [2 + n]))
+        (W 17 2 3 (3 + n) 0 NOW0 true (2 + n) 2 (([LB1] ++ rows_app_m 2 1 d) ++ [(2 + n, wlogon cfgB (2 + n))]) [1; 2])
+        [] [] (map Some (texts 1 d)) [] [] (texts 1 d) (1 + n).
+
+Lemma recovery_none_m : forall d f, Z.of_nat d + 3 <= I64MAX ->
+  drain (S (S f)) (net_reconnected_m d 0) = net_final0_m d.
+Proof.
+  intros d f B. unfold net_reconnected_m. rewrite Nat.add_0_r.
+  rewrite drain_S. unfold pending at 1. nopen. unfold do_deliver. nopen.
+  rewrite (recv_logon_exact 2 (2 + Z.of_nat d) (1 + Z.of_nat d) 1 (LB1 :: rows_app_m 2 1 d) [1]);
+    [ | repeat constructor; lia | constructor; [unfold LB1; cbn [fst]; lia | apply keys_lt_gen; lia]
+      | unfold I64MAX; lia | unfold I64MAX in *; lia | lia | lia ].
+  nopen.
+  rewrite drain_S. nopen. unfold do_deliver. nopen.
+  rewrite (recv_logon_reply (2 + Z.of_nat d) 3 2 (1 + Z.of_nat d) _ (1 :: nums 2 d));
+    [ | constructor; [lia | apply all_lt_nums; lia] | unfold I64MAX in *; lia | lia ].
+  nopen. rewrite drain_quiet; [ | reflexivity | reflexivity ].
+  unfold net_final0_m. rewrite ?app_nil_r. cbn [app].
+  repeat (first [ reflexivity | lia | f_equal ]).
+Qed.
+
+(* --- the last k + 1 messages of B were in flight: Logon, Logon reply, ResendRequest from A, replay + gap fill from B *)
+Definition net_final_m (d k : nat) : net :=
+  let n := Z.of_nat (d + S k) in
+  let b := 2 + Z.of_nat d in
+  mkNet (W 17 1 (3 + n) 4 0 NOW0 true 3 (2 + n) [LA1; (2, wlogon cfgA 2); (3, wrr cfgA 3 b)]
+           (((1 :: nums 2 d) ++ nums b (S k)) ++ [2 + n]))
+        (W 17 2 4 (3 + n) 0 NOW0 true (2 + n) 3
+           ((LB1 :: rows_app_m 2 1 d) ++ rows_pd_m b (1 + Z.of_nat d) (S k) ++ [(2 + n, wgf cfgB (2 + n) (3 + n))]) [1; 2; 3])
+        [] [] (map Some (texts 1 d) ++ map Some (texts (1 + Z.of_nat d) (S k))) [] [] (texts 1 (d + S k)) (1 + n).
+
+Lemma recovery_some_m : forall d k f, Z.of_nat (d + S k) + 3 <= I64MAX ->
+  drain (3 + (S k + S f)) (net_reconnected_m d (S k)) = net_final_m d k.
+Proof.
+  intros d k f B. unfold net_reconnected_m.
+  set (n := Z.of_nat (d + S k)) in *. set (b := 2 + Z.of_nat d).
+  assert (Hn : n = Z.of_nat d + Z.of_nat (S k)) by (unfold n; lia).
+  cbn [Nat.add].
+  (* B: Logon numbered as expected; its reply carries B's next number 2 + n *)
+  rewrite drain_S. unfold pending at 1. nopen. unfold do_deliver. nopen.
+  rewrite (recv_logon_exact 2 (2 + n) (1 + n) 1 (LB1 :: rows_app_m 2 1 (d + S k)) [1]);
+    [ | repeat constructor; lia | constructor; [unfold LB1; cbn [fst]; lia | apply keys_lt_gen; unfold n; lia]
+      | unfold I64MAX; lia | unfold I64MAX in *; lia | lia | lia ].
+  nopen.
+  (* A: Logon reply numbered above the expected number: ResendRequest *)
+  rewrite drain_S. nopen. unfold do_deliver. nopen.
+  rewrite (recv_logon_reply_high b 3 2 (1 + Z.of_nat d) [LA1; (2, wlogon cfgA 2)] (1 :: nums 2 d) (2 + n));
+    [ | repeat constructor; unfold LA1; cbn [fst]; lia | unfold b; lia | unfold I64MAX in *; lia | unfold I64MAX; lia | lia ].
+  nopen.
+  (* B: ResendRequest *)
+  rewrite drain_S. unfold pending at 1. nopen. unfold do_deliver. nopen.
+  replace (rows_app_m 2 1 (d + S k)) with (rows_app_m 2 1 d ++ rows_app_m b (1 + Z.of_nat d) (S k))
+    by (unfold rows_app_m; rewrite gen_app; reflexivity).
+  rewrite <- app_assoc.
+  change (LB1 :: rows_app_m 2 1 d ++ rows_app_m b (1 + Z.of_nat d) (S k) ++ [(2 + n, wlogon cfgB (2 + n))])
+    with ((LB1 :: rows_app_m 2 1 d) ++ rows_app_m b (1 + Z.of_nat d) (S k) ++ [(2 + n, wlogon cfgB (2 + n))]).
+  change (wrr cfgA 3 b) with (wrr cfgA (2 + 1) b).
+  rewrite (recv_resend_request_m (2 + 1) NOW0 2 (LB1 :: rows_app_m 2 1 d) [1; 2] b (1 + Z.of_nat d) (S k) (2 + n));
+    [ | repeat constructor; lia
+      | constructor; [unfold LB1; cbn [fst]; unfold b; lia | apply keys_lt_gen; unfold b; lia]
+      | unfold I64MAX; lia | unfold b; lia | unfold b; lia | unfold I64MAX in *; lia ].
+  nopen. refold. rewrite wires_app, apps_app, wires_map_wire, apps_map_wire. nopen.
+  (* A: the k + 1 retransmissions *)
+  change (S (k + S f)) with (S k + S f)%nat.
+  rewrite (drain_pd_m k (S f) b (1 + Z.of_nat d) (2 + n) 0 (3 + 1) 3 (1 + Z.of_nat d));
+    [ | constructor; [unfold b; lia | apply all_lt_nums; unfold b; lia] | unfold b; lia | unfold b; lia
+      | unfold I64MAX in *; lia | unfold b; lia ].
+  (* A: the gap fill over B's Logon reply *)
+  rewrite drain_S. nopen. unfold do_deliver. nopen.
+  replace (b + Z.of_nat (S k)) with (2 + n) by (unfold b; lia).
+  rewrite (recv_gf_awaiting_m (2 + n) (3 + 1) 3 (1 + Z.of_nat d + Z.of_nat (S k)));
+    [ | constructor; [lia | apply Forall_app; split; apply all_lt_nums; unfold b; lia]
+      | repeat constructor; unfold LA1; cbn [fst]; lia
+      | unfold I64MAX in *; lia | unfold I64MAX; lia | lia | lia ].
+  nopen. rewrite drain_quiet; [ | reflexivity | reflexivity ].
+  unfold net_final_m. fold n. fold b. rewrite ?app_nil_r. cbn [app].
+  repeat (first [ reflexivity | lia | f_equal ]).
+Qed.
+
+(* what the property asks of a settled state after B's n sends *)
+Definition recovered_m (s : net) (n : nat) : Prop :=
+  quiescent s = true
+  /\ st (wa s) = ST_ACTIVE /\ st (wb s) = ST_ACTIVE
+  /\ nin (wa s) = nout (wb s) /\ nin (wb s) = nout (wa s)
+  /\ sb s = texts 1 n
+  /\ ga s = map Some (texts 1 n)
+  /\ sa s = [] /\ gb s = []
+  /\ holds s = true.
+
+Lemma final0_recovered_m : forall d, recovered_m (net_final0_m d) (d + 0).
+Proof.
+  intros d. rewrite Nat.add_0_r.
+  assert (H : holds (net_final0_m d) = true) by (apply holds_intro; reflexivity).
+  unfold recovered_m. rewrite H. unfold net_final0_m. cbn [wa wb ab ba ga gb sa sb nid].
+  repeat split; reflexivity.
+Qed.
+
+Lemma final_recovered_m : forall d k, recovered_m (net_final_m d k) (d + S k).
+Proof.
+  intros d k.
+  assert (G : ga (net_final_m d k) = map Some (texts 1 (d + S k))).
+  { unfold net_final_m. cbn [ga]. rewrite <- map_app, <- texts_split. reflexivity. }
+  assert (H : holds (net_final_m d k) = true).
+  { apply holds_intro; try reflexivity. rewrite G. reflexivity. }
+  unfold recovered_m. rewrite H, G. unfold net_final_m. cbn [wa wb ab ba ga gb sa sb nid].
+  repeat split; reflexivity.
+Qed.
+
+Lemma family_outside_class_m : forall d k, reply_in_flight (net_before_m d k) = false.
+Proof.
+  intros d k. unfold reply_in_flight, net_before_m. cbn [ab ba app].
+  apply not_true_is_false. intros H. apply existsb_exists in H. destruct H as [m [Hin Hm]].
+  assert (F : Forall (fun m => is_reply m = false) (frames_app_m (2 + Z.of_nat d) (1 + Z.of_nat d) k)).
+  { apply gen_Forall. intros j Hj. reflexivity. }
+  rewrite Forall_forall in F. rewrite (F m Hin) in Hm. discriminate.
+Qed.
+
+Theorem single_break_m_nk : forall n k fuel,
+  (k <= n)%nat -> Z.of_nat n + 3 <= I64MAX -> (k + 4 <= fuel)%nat ->
+  reply_in_flight (run net0 (sched_before_m (n - k) k)) = false
+  /\ recovered_m (settle fuel (run net0 (sched_before_m (n - k) k ++ [ABreak]))) n.
+Proof.
+  intros n k fuel K B F.
+  assert (E : (n - k + k)%nat = n) by lia.
+  assert (B' : Z.of_nat (n - k + k) + 3 <= I64MAX) by (rewrite E; exact B).
+  split.
+  - rewrite at_before_m by exact B'. apply family_outside_class_m.
+  - rewrite at_break_m, settle_broken_m by exact B'. rewrite <- E at 2.
+    destruct k as [|k].
+    + destruct fuel as [|[|f]]; [lia|lia|]. rewrite recovery_none_m by (rewrite Nat.add_0_r in B'; exact B').
+      apply final0_recovered_m.
+    + replace fuel with (3 + (S k + S (fuel - (S k + 4))))%nat by lia.
+      rewrite recovery_some_m by exact B'. apply final_recovered_m.
+Qed.
+
 (* ------------------------------------------------------------------ constants of Net.v = the code's (regenerated every run) *)
 
 Fixpoint assoc_num (k : str) (l : list (str * N)) : option N :=
